@@ -94,6 +94,8 @@ struct Inj<'a> {
     two_v4: bool,
     /// TCP listener bound to a specific address
     bound_listener: Option<(SocketHandle, IpAddr)>,
+    /// forced upcoming TCP injections, last first: (destination class, flags, sequence number)
+    script: Vec<(DstClass, u8, u32)>,
 }
 
 fn a6(b0: u8, b1: u8, last2: [u8; 2]) -> [u8; 16] {
@@ -324,7 +326,7 @@ pub fn run(tape: &mut Tape, props: Props, thorough: bool, trace_on: bool) -> Out
         let _ = node.iface.join_multicast_group(smoltcp::wire::Ipv6Address::new(0xff02, 0, 0, 0, 0, 0, 0, 0x42));
     }
     let desc = format!("injector medium={:?} two-ipv4-subnets={} listeners={} udp={} raw={} joined4={} joined6={}", medium, two_v4, with_listeners, with_udp, has_raw, joined4, joined6);
-    let mut c = Inj { tape, props, node, view, medium, now: 1_000_000, stats: Stats::default(), hash: LogHash::new(), trace: vec![], trace_on, events: 0, socks, v4, v6: v6addr, joined4, joined6, has_raw, seq154: 0, two_v4, bound_listener };
+    let mut c = Inj { tape, props, node, view, medium, now: 1_000_000, stats: Stats::default(), hash: LogHash::new(), trace: vec![], trace_on, events: 0, socks, v4, v6: v6addr, joined4, joined6, has_raw, seq154: 0, two_v4, bound_listener, script: vec![] };
     let r = body(&mut c, thorough);
     let nontrivial = c.stats.get("inj.packets") >= 5 && c.stats.get("inj.not-for-us") >= 1;
     c.stats.add("sim.seconds", (c.now / 1_000_000) as u64);
@@ -359,7 +361,14 @@ fn body(c: &mut Inj, thorough: bool) -> Result<(), Violation> {
         // flush anything the stack wants to send on its own so that replies are attributable
         let info = c.node.poll(c.now)?;
         emitted(c, &info)?;
-        let v6 = !c.two_v4 && (c.v4.is_none() || c.tape.draw(2) == 1);
+        // now and then a short scripted history against the address-bound listener: a handshake attempt that the
+        // peer resets, followed by a SYN for the same port on another own address
+        if c.script.is_empty() && c.bound_listener.is_some() && c.v4.is_some() && c.tape.draw(20) == 19 {
+            c.script = vec![(DstClass::Own2, F_SYN, 1000), (DstClass::Own, F_RST, 1001), (DstClass::Own, F_SYN, 1000)];
+            c.stats.inc("inj.scripted-aborted-handshake");
+        }
+        let forced = c.script.pop();
+        let v6 = !c.two_v4 && (c.v4.is_none() || c.tape.draw(2) == 1) && forced.is_none();
         let dc = *c.tape.pick(&[DstClass::Own, DstClass::OtherOnLink, DstClass::OtherOffLink, DstClass::SubnetBroadcast, DstClass::LimitedBroadcast, DstClass::AllNodes, DstClass::OwnSolicited, DstClass::ForeignSolicited, DstClass::JoinedGroup, DstClass::UnjoinedGroup, DstClass::Unspecified, DstClass::Loopback, DstClass::LookalikeUnicast, DstClass::Own, DstClass::Own2, DstClass::SubnetBroadcast2]);
         let sc = *c.tape.pick(&[SrcClass::OnLink, SrcClass::OnLink, SrcClass::OffLink, SrcClass::Broadcast, SrcClass::Multicast, SrcClass::Unspecified, SrcClass::Loopback, SrcClass::Own, SrcClass::OnLink, SrcClass::OnLink2, SrcClass::Broadcast2]);
         let l2 = match c.medium {
@@ -367,10 +376,14 @@ fn body(c: &mut Inj, thorough: bool) -> Result<(), Violation> {
             Medium::Ethernet => *c.tape.pick(&[L2Class::Own, L2Class::Own, L2Class::OtherUnicast, L2Class::Broadcast, L2Class::Multicast]),
             Medium::Ieee802154 => *c.tape.pick(&[L2Class::Own, L2Class::Own, L2Class::OtherUnicast, L2Class::Broadcast, L2Class::OtherPan, L2Class::BroadcastPan, L2Class::OtherPanBroadcast]),
         };
+        let (dc, sc, l2) = match forced {
+            Some((d, _, _)) => (d, SrcClass::OnLink, L2Class::Own),
+            None => (dc, sc, l2),
+        };
         let dst = c.dst_addr(dc, v6);
         let src = c.src_addr(sc, v6);
         // ---- protocol and port relation
-        let proto = c.tape.draw(8);
+        let proto = if forced.is_some() { 2 } else { c.tape.draw(8) };
         let (l4p, l4, is_err, is_rst, what): (u8, Vec<u8>, bool, bool, &'static str) = match proto {
             0 | 1 => {
                 let dport = *c.tape.pick(&[7000u16, 7001, 9999, 53, 7000]);
@@ -379,7 +392,17 @@ fn body(c: &mut Inj, thorough: bool) -> Result<(), Violation> {
             2 | 3 => {
                 let flags = *c.tape.pick(&[F_SYN, F_SYN, F_ACK, F_RST, F_ACK | F_PSH, F_FIN | F_ACK]);
                 let dport = *c.tape.pick(&[80u16, 81, 9999, 80]);
-                let t = Tcp { sport: 5000 + c.tape.draw(50) as u16, dport, seq: 1000, ack: if flags & F_ACK != 0 { 5000 } else { 0 }, flags, win: 1024, payload: if flags & F_PSH != 0 { b"data".to_vec() } else { vec![] }, ..Tcp::default() };
+                let (flags, dport) = match forced {
+                    Some((_, f, _)) => (f, 81),
+                    None => (flags, dport),
+                };
+                // few source ports and sequence numbers at / right after the SYN's, so that histories form: a SYN
+                // followed by an acceptable RST from the same peer sends a listener back to LISTEN
+                let t = Tcp { sport: if forced.is_some() { 5000 } else { 5000 + c.tape.draw(4) as u16 }, dport, seq: match forced {
+                    Some((_, _, q)) => q,
+                    None if flags & F_SYN != 0 => 1000,
+                    None => 1000 + c.tape.draw(2) as u32,
+                }, ack: if flags & F_ACK != 0 { 5000 } else { 0 }, flags, win: 1024, payload: if flags & F_PSH != 0 { b"data".to_vec() } else { vec![] }, ..Tcp::default() };
                 (P_TCP, enc_tcp(&src, &dst, &t), false, flags & F_RST != 0, "tcp")
             }
             4 => {
